@@ -49,7 +49,7 @@ def handle (c : Json) : Json :=
                          ("badProduced", jBool (badProduced env f body)), ("allConforming", jBool (allConforming env f args kw body)),
                          ("incompleteParam", jBool (incompleteParam f)), ("incompleteReturn", jBool (incompleteReturn f)),
                          ("keywordCall", jBool (keywordCall t args)), ("exempt", jBool (exempt f t)), ("hasVarPos", jBool (hasVarPos f)),
-                         ("pythonBinds", jBool (f.binds (if f.mode == .pedantic && PedVerif.Gen.CallTables.kwargsOnlyInvocation f.isStatic f.isBound then 0 else args.length) (kw.map (·.1))))]),
+                         ("pythonBinds", jBool (f.binds (fwdPosOf f args).length (kw.map (·.1))))]),
          ("flags", mkObj [("wantsArgs", jBool f.wantsArgs), ("isStatic", jBool f.isStatic), ("isSetter", jBool f.isSetter),
                           ("isPedantic", jBool f.isPedantic), ("numDecorators", jNat f.numDecorators), ("strips", jBool f.strips),
                           ("shouldHaveKwargs", jBool f.shouldHaveKwargs), ("clazzFails", jBool (f.clazzFails args))]),
